@@ -13,7 +13,7 @@ enum EvKind : uint8_t {
   EV_LOCK_REQ = 1, EV_LOCK_ACQ, EV_UNLOCK, EV_CV_WAIT, EV_CV_WAKE, EV_NOTIFY_ONE, EV_NOTIFY_ALL,
   EV_THREAD_CREATE, EV_THREAD_START, EV_THREAD_EXIT, EV_JOIN_REQ, EV_JOIN_DONE,
   EV_LOOK, EV_RELOOK, EV_LOAD_BEGIN, EV_LOAD_END, EV_EXPORT_BEGIN, EV_EXPORT_END, EV_GROUP,
-  EV_SPY_ENTER, EV_SPY_EXIT, EV_SPURIOUS, EV_IO_READ, EV_IO_WRITE, EV_IO_SEEK, EV_TRYLOCK, EV_TIMEOUT, EV_ATOMIC,
+  EV_SPY_ENTER, EV_SPY_EXIT, EV_SPURIOUS, EV_IO_READ, EV_IO_WRITE, EV_IO_SEEK, EV_TRYLOCK, EV_TIMEOUT, EV_ATOMIC, EV_MEM,
   EV_KIND_MAX
 };
 const char *ev_name(int k);
@@ -73,6 +73,7 @@ struct SchedResult {
   long probe_spurious_consumed = 0;
   long probe_max_runnable = 0;
   long decision_points = 0;               // scheduling points at which >= 2 threads could run
+  long mem_accesses = 0, mem_sched_points = 0;   // 'tsi' builds: instrumented memory accesses seen / turned into scheduling points
 };
 
 // ---- session control (called by the harness on the thread that will act as simulated main) ----
@@ -93,6 +94,8 @@ const std::vector<int> &current_decisions();
 void hook_event(int kind, const void *p1, const void *p2, unsigned long n);
 void spy_event(bool enter, int stream);
 void io_event(int kind, int file, long n);   // not a scheduling point; goes into the trace
+void mem_access(const void *p, unsigned size, bool write);
+void mem_fresh(const void *p, unsigned long n);   // 'tsi' builds: a heap block was just allocated / is being freed   // 'tsi' builds: an instrumented load/store is about to happen
 // monitor configuration
 void monitor_set_ready_probe(bool (*is_ready)(const void *ctrl));
 void monitor_set_bufsize(unsigned long sizeof_iobuffer);
